@@ -101,13 +101,23 @@ def impl_rot(axis, theta):
 
 
 def impl_base(p0, p1, p2):
+    """calls calcule_base in the three ways a caller may pass the points - a list of three arrays, a tuple, ONE (3,3)
+    float64 array - twice each, and reports whether any input object was modified or any call differs"""
     from gaddlemaps import calcule_base
     a, b, c = np.array(p0, dtype=float), np.array(p1, dtype=float), np.array(p2, dtype=float)
     sa, sb, sc = a.copy(), b.copy(), c.copy()
     with np.errstate(all="ignore"):
         (v1, v2, v3_), o = calcule_base([a, b, c])
-    unchanged = (a == sa).all() and (b == sb).all() and (c == sc).all()
-    return np.array(v1), np.array(v2), np.array(v3_), np.array(o), bool(unchanged)
+        res = [np.array(v1).copy(), np.array(v2).copy(), np.array(v3_).copy(), np.array(o).copy()]
+        unchanged = (a == sa).all() and (b == sb).all() and (c == sc).all()
+        block = np.array([sa, sb, sc], dtype=np.float64)
+        snap = block.copy()
+        for arg in ((a, b, c), block, block, [a, b, c]):
+            (w1, w2, w3), wo = calcule_base(arg)
+            same = all(np.array_equal(np.array(x), y, equal_nan=True) for x, y in zip((w1, w2, w3, wo), res))
+            unchanged = unchanged and same and bool((block == snap).all()) and \
+                (a == sa).all() and (b == sb).all() and (c == sc).all()
+    return res[0], res[1], res[2], res[3], bool(unchanged)
 
 
 # ------------------------------------------------------------------ S oracles (property text)
@@ -221,7 +231,7 @@ def oracle_base(kind, p0, p1, p2):
     if not (np.array(o) == np.array(p0)).all():
         bad.append("origin is not the first point")
     if not unchanged:
-        bad.append("inputs modified")
+        bad.append("inputs modified, or the result depends on how/how often the same points are passed (list, tuple, one (3,3) array; repeated)")
     return bad
 
 
